@@ -200,7 +200,10 @@ func runCheck(id, tier string, seed int) int {
 		return 1
 	}
 	applyTemplates(P, C)
-	timeout := 10
+	// quick tier: 15 s per obligation (the slowest obligation of the unchanged tree needs under 4 s on this machine
+	// and the whole suite has been seen to run three times slower on a loaded one); undecided ones get a second
+	// chance with three times the limit
+	timeout := 15
 	if tier == "thorough" {
 		timeout = 60
 	}
